@@ -249,7 +249,7 @@ class C05(StreamProp):
                 for ot in ws.parse_trace(traces.get(cid, '').split(' ## ')[0]):
                     if ot.res == 'err:io:wb':
                         continue
-                    seq.append(rfc.trace_class(ot.res))
+                    seq.append(ot.res)        # exact results: "the final error is the same", variant included
                     if seq[-1].startswith('err') or seq[-1].startswith('panic'):
                         break
                 seqs.append((seq, cid))
